@@ -245,6 +245,8 @@ def render(t, st, names, _d=0):
         return f'{R(t[1])}[{R(t[2])}]'
     if k == 'iter':
         return 'iter(' + R(t[1]) + ')'
+    if k == 'narrow':
+        return f'narrowed<{short(t[1])}>({R(t[2])})'
     if k == 'castto':
         return R(t[2])
     if k == 'after':
